@@ -461,9 +461,10 @@ def r7(ctx, cfg):
                 name = o[1].rsplit("::", 1)[1]
                 chain.append(name)
                 nxt = peel(o[2][0])
-                if name in ("unwrap_or", "map_or", "unwrap_or_default"):
+                if name in ("unwrap_or", "map_or"):
                     dflt = [peel(x) for x in o[2][1:]]
                     ok = ok and any(d == ("const", "int", 0) for d in dflt)
+                # (`unwrap_or_default()` of an integer is `unwrap_or(0)`)
                 o = nxt
             ok = ok and _is_code_data_field(o)
             idiom = tuple(reversed([c for c in chain if c not in ("unwrap_or", "map_or", "unwrap_or_default", "map", "copied", "cloned")]))
